@@ -64,6 +64,7 @@ type Obligation struct {
 // VC is the verification condition context of one function under contract (or one lemma).
 type VC struct {
 	split  bool // decide at-call assertions and postconditions path by path (option split)
+	splitMax int
 	Name   string
 	ss     *Sorts
 	nodes  []*Node
